@@ -67,6 +67,13 @@ class UniverseLaws(base.BaseObject):
         self._edge_whitelist = edge_whitelist
         try:
             self.edge_whitelist
+            if edge_whitelist is not None:
+                # keep a private copy of both levels, so that later changes
+                # to the caller's dictionaries cannot alter these laws
+                self._edge_whitelist = {
+                    t: dict(linkset.items())
+                    for t, linkset in edge_whitelist.items()
+                }
         except (ValueError, AttributeError) as exc:
             # re-raise, but with a more clear message of what's happening
             raise ValueError(
